@@ -96,6 +96,18 @@ def partitions(tier):
             parts.append(dict(name="t2:%d:%s:short" % (S, prefix or "-"), fn="t2",
                               params=dict(S=S, prefix=prefix, rsv=rsv, oldlens=[0, 255],
                                           lens=[0, 1, 5], long=False)))
+    # room for the NDEF TLV on both sides of 254+3 bytes (where the capacity
+    # calculation switches to the three-byte length format): a 264 byte data
+    # area with 5..9 bytes of other TLVs in front
+    pre264 = ["NNNNNN", "NNNNNNN", "LN", "LNN"]
+    if tier != "quick":
+        pre264 += ["NNNNN", "NNNNNNNN", "NNNNNNNNN", "L", "LNNN"]
+    for prefix in pre264:
+        parts.append(dict(name="t2:264:%s:edge" % prefix, fn="t2",
+                          params=dict(S=264, prefix=prefix,
+                                      rsv=[(288, 2)] if "L" in prefix else [],
+                                      oldlens=[0, 200], lens=[253, 254, 255, 256, 257, "cap", "cap+1"],
+                                      long=True)))
     # two sectors: a message that crosses the 1 KiB sector boundary (SECTOR SELECT
     # in the read and in the write path)
     parts.append(dict(name="t2:2032:-:sector", fn="t2",
@@ -136,13 +148,14 @@ def partitions(tier):
                                       lens=lens, long=True)))
     # ---- Type 3 (and the library's own Type 3 Tag emulation as the tag)
     for emulated in (False, True):
-        combos = [(1, 1, 1), (1, 1, 3), (4, 3, 5), (15, 13, 14), (3, 2, 4), (12, 8, 20)]
+        combos = [(1, 1, 1), (1, 1, 3), (4, 3, 5), (15, 13, 14), (3, 2, 4), (12, 8, 20),
+                  (15, 13, 17)]        # one READ with the maximum of 15 blocks
         if tier != "quick":
             combos += [(nbr, nbw, 6) for nbr in (2, 5, 7, 15) for nbw in (1, 4, 6, 13)]
         for nbr, nbw, nmaxb in combos:
             parts.append(dict(name="t3%s:%d:%d:%d" % ("emu" if emulated else "", nbr, nbw, nmaxb),
                               fn="t3", params=dict(nbr=nbr, nbw=nbw, nmaxb=nmaxb, oldlens=[0, 5, 17],
-                                                   lens=[0, 1, 15, 16, 17, 32, "cap-1", "cap", "cap+1"],
+                                                   lens=[0, 1, 15, 16, 17, 32, 224, 225, 241, "cap-1", "cap", "cap+1"],
                                                    emulated=emulated)))
     # a data area of 64 KiB and more: Ln needs its third byte (contents are
     # concrete here, the subject is the length arithmetic)
